@@ -110,6 +110,24 @@ def real_group_case():
     return {"k": "group", "events": events, "real": True}
 
 
+def _group_job(job):
+    import sys
+
+    sys.stderr = open("/dev/null", "w")
+    prog, nbounded, nrandom, seed = job
+    traces = {}
+    runs = 0
+    small = sum(len(o) for _, o in prog["threads"]) <= 4
+    st = None
+    for res, st in explore.bounded(lambda ch: run_group(prog, ch), 1 if not small else 2, nbounded):
+        runs += 1
+        traces.setdefault(json.dumps(res["events"]), (prog, res["decisions"], res["events"]))
+    for res in explore.randoms(lambda ch: run_group(prog, ch), nrandom, seed):
+        runs += 1
+        traces.setdefault(json.dumps(res["events"]), (prog, res["decisions"], res["events"]))
+    return {"traces": traces, "runs": runs, "exhaustive": 1 if st and st["exhaustive"] else 0}
+
+
 def run(ctx):
     rng = random.Random(ctx.seed + 20)
     r = tlc.run("MCXSpec", "MCXSpec.cfg" if ctx.quick else "MCXSpecBig.cfg", scratch=ctx.scratch, timeout=3000)
@@ -146,24 +164,18 @@ def run(ctx):
     seen = set()
     nruns = 0
     exhaustive = 0
-    for prog in gprogs:
-        small = sum(len(o) for _, o in prog["threads"]) <= 4
-        st = None
-        for res, st in explore.bounded(lambda ch: run_group(prog, ch), 1 if not small else 2, 120 if ctx.quick else 6000):
-            nruns += 1
-            key = json.dumps(res["events"])
-            if key not in seen:
-                seen.add(key)
-                cases.append({"k": "group", "events": res["events"]})
-                metas.append({"program": prog, "decisions": res["decisions"]})
-        exhaustive += 1 if st and st["exhaustive"] else 0
-        for res in explore.randoms(lambda ch: run_group(prog, ch), 25 if ctx.quick else 600, ctx.seed):
-            nruns += 1
-            key = json.dumps(res["events"])
-            if key not in seen:
-                seen.add(key)
-                cases.append({"k": "group", "events": res["events"]})
-                metas.append({"program": prog, "decisions": res["decisions"]})
+    import multiprocessing as mp
+
+    gjobs = [(prog, 120 if ctx.quick else 1500, 25 if ctx.quick else 200, ctx.seed) for prog in gprogs]
+    with mp.get_context("fork").Pool(12) as pool:
+        for out in pool.imap_unordered(_group_job, gjobs, chunksize=1):
+            nruns += out["runs"]
+            exhaustive += out["exhaustive"]
+            for key, (prog, decisions, events) in out["traces"].items():
+                if key not in seen:
+                    seen.add(key)
+                    cases.append({"k": "group", "events": events})
+                    metas.append({"program": prog, "decisions": decisions})
     rc = real_group_case()
     cases.append({"k": "group", "events": rc["events"]})
     metas.append({"real_group": True})
